@@ -13,6 +13,7 @@ import (
 	"encoding/json"
 	"fmt"
 	"reflect"
+	"strconv"
 	"strings"
 
 	"sigs.k8s.io/structured-merge-diff/v6/value"
@@ -358,6 +359,28 @@ func rsetCase(o *Out, g *tgen, cr *gen.Rng) {
 	want, ok1 := norm(exp)
 	// the type reads its own JSON back unchanged (no one-way marshalers, no lossy fields)?
 	selfBefore, ok2 := norm(before)
+	// the same operation for the model (generic family only: there `i` on the wire means int64)
+	opLine := ""
+	if family == "generic" {
+		if ts, ok := vx.GoType(root); ok {
+			if vs, ok := vx.GoVal(pa.Elem()); ok {
+				pe := "Q"
+				for _, st := range path {
+					if st.isKey {
+						pe += "k" + vx.Str(st.key)
+					} else {
+						pe += "i" + strconv.Itoa(st.index) + ";"
+					}
+				}
+				pe += ";"
+				if doSet {
+					opLine = "rfl.set " + ts + " " + vs + " " + pe + " " + vx.Str(key) + " " + vx.Unstructured(newV)
+				} else {
+					opLine = "rfl.del " + ts + " " + vs + " " + pe + " " + vx.Str(key)
+				}
+			}
+		}
+	}
 	res := safe(func() string {
 		t, ok := navigate(rv, path)
 		if !ok || !t.IsMap() {
@@ -386,6 +409,21 @@ func rsetCase(o *Out, g *tgen, cr *gen.Rng) {
 	}
 	if res == "gone" {
 		return
+	}
+	if opLine != "" && !strings.ContainsAny(opLine, "\n\r") {
+		ans := "panic"
+		switch {
+		case res == "ok":
+			ans = safe(func() string { return "ok " + vx.Value(rv) })
+		case strings.Contains(lastPanic, "does not exist"), strings.Contains(lastPanic, "neither a pointer nor an omitempty field"),
+			strings.Contains(lastPanic, "behind a nil pointer"):
+			ans = "refused"
+		}
+		if !strings.ContainsAny(ans, "\n\r") {
+			saved := lastPanic
+			o.Emit(opLine, func() string { return ans })
+			lastPanic = saved
+		}
 	}
 	if res == "panic" {
 		msg := lastPanic
